@@ -189,6 +189,9 @@ INITS = [
     ["new", [[["a_b", 3]], [["a-b", "w q"]]], [["x__", ""]]],
     ["new", [[["x", None], ["x_", "kept"]]], []],
     ["new", [], [["class_", "k"], ["x", 2.5]]],
+    ["new", [[["class_", "a"], ["x_", ["H", "h"]]]], [["data_x_", True]], "copy"],
+    ["new", [[["a_b", 3]], [["a-b", "w q"]]], [["x__", ""]], "tagify"],
+    ["new", [], [], "tagify"],
 ]
 LIVE_VALUES = ["v", "w q", "", True, 3, 2.5, ["H", "h"], 0]
 
@@ -226,6 +229,9 @@ def run_hist(hist):
         k = op[0]
         if k == "new":
             t = Tag("div", *[to_dict(d) for d in op[1]], **to_dict(op[2]))
+            if len(op) > 3:
+                import copy as _copy
+                t = _copy.copy(t) if op[3] == "copy" else Tag("section", t).tagify().children[0]
             model = model_call([], op[1], op[2])
         elif k == "update-dict":
             t.attrs.update(to_dict(op[1]))
@@ -260,7 +266,9 @@ def step(hist):
         pos = [s.find(f' {n}="') for n, _, _ in got]
         if any(p < 0 for p in pos) or pos != sorted(pos):
             viols.append(("history:render-order", "rendered attributes are not in stored order", {"observed": s}))
-    key = None if viols else tuple(map(tuple, got))
+    if type(t.attrs).__name__ != "TagAttrDict" and not viols:
+        viols.append(("history:attrs-type", f"tag.attrs is a {type(t.attrs).__name__}, not the normalising attribute map", {}))
+    key = None if viols else (hist[0][3] if len(hist[0]) > 3 else "",) + tuple(map(tuple, got))
     return {"key": key, "viol": viols, "nontrivial": len(hist) >= 3, "outcome": key}
 
 
